@@ -42,3 +42,14 @@ package actions
 //@   ensures jitter: 0 <= fuzzedDelay - nominalDelay && fuzzedDelay - nominalDelay < 1000000000
 //@   ensures small_delays_exact: nominal_backoff(sub, attempts) <= 500000000.0 ==> fuzzedDelay == nominalDelay
 //@   modifies nothing
+
+// C03: acknowledge completes exactly the listed, still open deliveries and changes nothing else.
+//@ func (*AckDeliveries).Execute(a, ctx, tx) (err)
+//@   property C03
+//@   uses tables
+//@   requires a != nil && tx != nil
+//@   ensures acked: err == nil ==> (forall d Id :: old(open(d)) && old(inlist(d, a.params.ids)) ==> deliveries.exists(d) && !deliveries.completed_at$null(d))
+//@   ensures others_untouched: forall d Id :: !(old(open(d)) && old(inlist(d, a.params.ids))) ==>
+//@             deliveries.completed_at$null(d) == old(deliveries.completed_at$null(d))
+//@   ensures no_swallowed_failure: [C09] dbfailed() && !old(dbfailed()) ==> err != nil
+//@   modifies T:deliveries:completed_at, T:deliveries:completed_at$null, S:dbfailed, E:uuid.UUID:, F:actions.AckDeliveries:actionBase.results, F:actions.ackDeliveriesResults:*, F:actions.actionTimer:*
